@@ -31,6 +31,34 @@ func genC10(t *rapid.T) *CaseC10 {
 	h := genZoom(t, "eh", 0, 35)
 	v := clamp64(h+rapid.Int64Range(-5, 5).Draw(t, "ed"), 0, 35)
 	c.Exp = genBoxAt(t, "exp", h, v)
+	if rapid.IntRange(0, 19).Draw(t, "decimal") == 0 {
+		// an output index of the expansion crosses / ends at a decimal roll-over (k*10^m - 1 | k*10^m): string building
+		vz := rapid.Int64Range(10, 35).Draw(t, "dv")
+		d := rapid.Int64Range(1, 5).Draw(t, "dd")
+		m := rapid.IntRange(3, 10).Draw(t, "dm")
+		p := int64(1)
+		for i := 0; i < m; i++ {
+			p *= 10
+		}
+		lim := int64(1) << uint(vz)
+		if p*2 < lim {
+			k := rapid.Int64Range(1, (lim-1)/p).Draw(t, "dk")
+			child := k*p - rapid.Int64Range(0, 1).Draw(t, "dside")
+			e := ref.Box{H: vz - d, V: vz, F: genF(t, "df", vz)}
+			e.X = genIndex(t, "dx", 0, (int64(1)<<uint(e.H))-1)
+			e.Y = child >> uint(d)
+			if rapid.Bool().Draw(t, "dswap") {
+				e.X, e.Y = e.Y, e.X
+			}
+			if rapid.IntRange(0, 3).Draw(t, "dvert") == 0 {
+				// the vertical axis is the expanded one
+				e = ref.Box{H: vz, X: genIndex(t, "dx2", 0, lim-1), Y: genIndex(t, "dy2", 0, lim-1), V: vz - d, F: (child >> uint(d)) * rapid.SampledFrom([]int64{1, -1}).Draw(t, "dsign")}
+			}
+			if e.Valid() {
+				c.Exp = e
+			}
+		}
+	}
 	return c
 }
 
